@@ -1132,7 +1132,7 @@ impl Check for C10 {
         }
     }
     fn rule(&self) -> String {
-        "each evaluation = one generated world (mostly without dead-end vertices, so every loop turn of the search shows as one expansion group) with a termination model drawn per family: runtime limit 0/1/2/60 s with check frequency 1-8, iteration limit 0-13, solution-size limit 0-13, or a combination in a generated order; a batch of 1-10 queries on a simulated pool of 1-5 workers. The simulator owns the clock: ticks of 1 us per read plus, per run, clock jumps at clock reads and/or stalls of a single worker at expansion points (per-event rate 0-0.2) of one or two limits' length. A harness-side frontier-model wrapper logs query starts and expansions; a reference model of the limits walks each query's history (start read, scheduled check reads with the values the search was given, expansions). Outcomes are also compared with the same query under no limit (identical result when it returns; stopped iff the unlimited search needs more than the limit). non-trivial = every run; distinct = distinct (batch, limits, schedule hash, fault count). Round 2/3 families: combined models nested up to four levels; ksp = single-via, both sub-searches walked (reverse search keyed by edge destination) under runtime / iteration / combined limits; yens = Yen's algorithm with a similarity threshold and pairs three or more hops apart, every spur search under the iteration limit; deadends = a third of the vertices without outgoing edges, iteration limit + a runtime check at every loop turn, so that the clock reads count the loop turns (a harness output plugin marks where a successful search returned); edge = edge-oriented queries Round 6: the solution-size limit is walked against a reference model of the search tree (distinct vertices reached through admitted edges); Yen's sub-searches are walked under every limit kind (history split at the cost-estimate calls a traversal-model wrapper reports; each sub-search has a budget and a tree of its own); family neighbour = a second caller thread runs a batch of its own into a response file that fails while the first caller's searches are walked.".into()
+        "each evaluation = one generated world (mostly without dead-end vertices, so every loop turn of the search shows as one expansion group) with a termination model drawn per family: runtime limit 0/1/2/60 s with check frequency 1-8, iteration limit 0-13, solution-size limit 0-13, or a combination in a generated order; a batch of 1-10 queries on a simulated pool of 1-5 workers. The simulator owns the clock: ticks of 1 us per read plus, per run, clock jumps at clock reads and/or stalls of a single worker at expansion points (per-event rate 0-0.2) of one or two limits' length. A harness-side frontier-model wrapper logs query starts and expansions; a reference model of the limits walks each query's history (start read, scheduled check reads with the values the search was given, expansions). Outcomes are also compared with the same query under no limit (identical result when it returns; stopped iff the unlimited search needs more than the limit). non-trivial = every run; distinct = distinct (batch, limits, schedule hash, fault count). Round 2/3 families: combined models nested up to four levels; ksp = single-via, both sub-searches walked (reverse search keyed by edge destination) under runtime / iteration / combined limits; yens = Yen's algorithm with a similarity threshold and pairs three or more hops apart, every spur search under the iteration limit; deadends = a third of the vertices without outgoing edges, iteration limit + a runtime check at every loop turn, so that the clock reads count the loop turns (a harness output plugin marks where a successful search returned); edge = edge-oriented queries Round 6: the solution-size limit is walked against a reference model of the search tree (distinct vertices reached through admitted edges); Yen's sub-searches are walked under every limit kind (history split at the cost-estimate calls a traversal-model wrapper reports; each sub-search has a budget and a tree of its own); family neighbour = a second caller thread runs a batch of its own into a response file that fails while the first caller's searches are walked. Round 7: iteration limits around the vertex count; estimates that overshoot (weight_factor above 1, edges shorter than the straight line) make searches re-open vertices - family reopen = small dense networks on which a search takes more loop turns than there are vertices; the neighbouring caller of family neighbour offers sections of the application configuration (termination, algorithm) as per-run overrides.".into()
     }
     fn assumptions(&self) -> Vec<String> {
         vec![
